@@ -997,10 +997,12 @@ fn hammer(threads: usize, millis: u64, seed: u64) -> Value {
         let arrived = AtomicUsize::new(0);
         let exprs = ["sum(v)", "avg(v)", "max(v)", "length(v)", "sort(v)[0]", "max_by(recs, &n).n", "join('', s)"];
         let compiled: Vec<_> = exprs.iter().map(|x| rt.compile(x).unwrap()).collect();
+        let steps: Vec<AtomicUsize> = (0..80 / threads.max(1) + 2).map(|_| AtomicUsize::new(0)).collect();
+        let gave_up = AtomicBool::new(false);
         let results: Vec<(Vec<Value>, u64, bool)> = thread::scope(|sc| {
             let hs: Vec<_> = (0..threads)
                 .map(|t| {
-                    let (arrived, compiled) = (&arrived, &compiled);
+                    let (arrived, compiled, steps, gave_up) = (&arrived, &compiled, &steps, &gave_up);
                     sc.spawn(move || {
                         let mut mism = vec![];
                         let mut done = 0u64;
@@ -1029,7 +1031,20 @@ fn hammer(threads: usize, millis: u64, seed: u64) -> Value {
                             while arrived.load(Ordering::SeqCst) < threads {
                                 std::hint::spin_loop();
                             }
-                            for (d, want) in docs.iter() {
+                            for (step, (d, want)) in docs.iter().enumerate() {
+                                // all threads bring their next new document at the same instant: whatever fills up after N
+                                // documents is crossed by `threads` insertions at once
+                                steps[step].fetch_add(1, Ordering::SeqCst);
+                                let mut spins = 0u32;
+                                while steps[step].load(Ordering::SeqCst) < threads && !gave_up.load(Ordering::Relaxed) {
+                                    spins += 1;
+                                    if spins > 2000 {
+                                        std::thread::yield_now();
+                                    }
+                                    if spins > 40_000_000 {
+                                        gave_up.store(true, Ordering::Relaxed); // a thread died: do not wait for it
+                                    }
+                                }
                                 for (i, e) in compiled.iter().enumerate() {
                                     let g = fp(&e.search(d));
                                     done += 1;
@@ -1039,6 +1054,9 @@ fn hammer(threads: usize, millis: u64, seed: u64) -> Value {
                                 }
                             }
                         }));
+                        if res.is_err() {
+                            gave_up.store(true, Ordering::Relaxed);
+                        }
                         (mism, done, res.is_err())
                     })
                 })
